@@ -23,6 +23,7 @@ from nunavut._postprocessors import (
     SetFileMode,
     TrimTrailingWhitespace,
 )
+from nunavut._dependencies import DependencyBuilder
 from nunavut._utilities import TEMPLATE_SUFFIX, DefaultValue, YesNoDefault
 from nunavut.lang import Language, LanguageContext, LanguageContextBuilder
 
@@ -228,6 +229,13 @@ class ArgparseRunner:
                     [x for x, _ in self._root_namespace.get_all_datatypes()],
                     lambda p: str(p.source_file_path.as_posix()),
                 )
+            # types found through the lookup directories shape the generated code too.
+            own_types = [x for x, _ in self._root_namespace.get_all_datatypes()]
+            dependencies = DependencyBuilder(*own_types).transitive().composite_types
+            self._stdout_lister(
+                sorted({d.source_file_path.as_posix() for d in dependencies} - {t.source_file_path.as_posix() for t in own_types}),
+                str,
+            )
 
     def _list_configuration_only(self) -> None:
         lctx = self._language_context
